@@ -361,9 +361,24 @@ def _(c):
 
     def close(a, b, v=8e3):
         return bool(np.linalg.norm(a[:3] - b[:3]) <= 1e-3 + v * 2e-6)
+
+    def primed(f, date, other):
+        """f(date), asked after f has been asked for the SAME CLOCK READING under the other label (another instant): an answer remembered under the clock reading
+        instead of the instant would be served here (results must not depend on what was asked before)"""
+        try:
+            alias = Date(date.d, date.s, scale=other)
+            if abs((alias - date).total_seconds()) > 1e-3:
+                f(alias)
+        except Exception:  # the aliased reading may be unusable for this operation (outside a table, ...): the priming is best effort
+            pass
+        return f(date)
     if op in ("sgp4", "kepler", "j2", "num_rk4", "cw"):
-        want = pos(ref.propagate(target))
-        got = pos(relabel_orbit(ref, le).propagate(target.change_scale(la)))
+        if op == "num_rk4":
+            want = pos(ref.propagate(target))
+            got = pos(relabel_orbit(ref, le).propagate(target.change_scale(la)))
+        else:
+            want = pos(primed(ref.propagate, target, la))
+            got = pos(primed(relabel_orbit(ref, le).propagate, target.change_scale(la), target.scale.name))
         # a UT1/TDB label preserves the instant only to the microsecond (C03); the numerical propagator then integrates along a slightly
         # different grid (epoch no longer equal to the start date): centimetre-level integration-path differences, not label effects
         ok = close(want, got) if op != "num_rk4" else bool(np.linalg.norm(want[:3] - got[:3]) <= 0.1)
@@ -386,17 +401,15 @@ def _(c):
         c.ensure("interpolation", close(want, got))
     elif op == "frame_gcrf_from_itrf":
         # through the IAU-2010 chain (ITRF - TIRF - CIRF - GCRF)
-        sv = StateVector(np.asarray(ref.copy(form="cartesian"), dtype=float), target, "cartesian", "ITRF")
-        want = np.asarray(sv.copy(frame="GCRF"), dtype=float)
-        sv2 = StateVector(np.asarray(ref.copy(form="cartesian"), dtype=float), target.change_scale(la), "cartesian", "ITRF")
-        got = np.asarray(sv2.copy(frame="GCRF"), dtype=float)
+        conv = lambda d: StateVector(np.asarray(ref.copy(form="cartesian"), dtype=float), d, "cartesian", "ITRF").copy(frame="GCRF")
+        want = np.asarray(primed(conv, target, la), dtype=float)
+        got = np.asarray(primed(conv, target.change_scale(la), target.scale.name), dtype=float)
         c.ensure("frame_conversion", close(want, got, v=500.0))
     elif op in ("frame_itrf", "frame_tod"):
         frame = "ITRF" if op == "frame_itrf" else "TOD"
-        sv = StateVector(np.asarray(ref.copy(form="cartesian"), dtype=float), target, "cartesian", "EME2000")
-        want = np.asarray(sv.copy(frame=frame), dtype=float)
-        sv2 = StateVector(np.asarray(ref.copy(form="cartesian"), dtype=float), target.change_scale(la), "cartesian", "EME2000")
-        got = np.asarray(sv2.copy(frame=frame), dtype=float)
+        conv = lambda d: StateVector(np.asarray(ref.copy(form="cartesian"), dtype=float), d, "cartesian", "EME2000").copy(frame=frame)
+        want = np.asarray(primed(conv, target, la), dtype=float)
+        got = np.asarray(primed(conv, target.change_scale(la), target.scale.name), dtype=float)
         c.ensure("frame_conversion", close(want, got, v=500.0))
     elif op == "tle_write":
         from beyond.io.tle import Tle
@@ -406,8 +419,8 @@ def _(c):
     elif op in ("sun", "moon"):
         from beyond.env.solarsystem import get_body
         body = get_body("Sun" if op == "sun" else "Moon")
-        want = np.asarray(body.propagate(target).copy(frame="EME2000", form="cartesian"), dtype=float)
-        got = np.asarray(body.propagate(target.change_scale(la)).copy(frame="EME2000", form="cartesian"), dtype=float)
+        want = np.asarray(primed(body.propagate, target, la).copy(frame="EME2000", form="cartesian"), dtype=float)
+        got = np.asarray(primed(body.propagate, target.change_scale(la), target.scale.name).copy(frame="EME2000", form="cartesian"), dtype=float)
         c.ensure("body_position", bool(np.linalg.norm(want[:3] - got[:3]) <= 1e-3 + 3e4 * 2e-6))
     elif op == "events":
         from beyond.propagators.listeners import NodeListener, ApsideListener
@@ -437,8 +450,8 @@ def _(c):
         from beyond.env import jpl
         _cfg()
         jpl.create_frames()
-        want = np.asarray(jpl.get_orbit("MarsBarycenter", target), dtype=float)
-        got = np.asarray(jpl.get_orbit("MarsBarycenter", target.change_scale(la)), dtype=float)
+        want = np.asarray(primed(lambda d: jpl.get_orbit("MarsBarycenter", d), target, la), dtype=float)
+        got = np.asarray(primed(lambda d: jpl.get_orbit("MarsBarycenter", d), target.change_scale(la), target.scale.name), dtype=float)
         c.ensure("body_position", bool(np.linalg.norm(want[:3] - got[:3]) <= 1e-3 + 3e4 * 2e-6))
     elif op == "ephem_iter":
         eph = ref.ephem(start=d0, stop=d0 + timedelta(seconds=offs + 3000), step=timedelta(seconds=120))
